@@ -86,8 +86,9 @@ type Net struct {
 	lcount  map[string]int
 
 	Plan FaultPlan
-	// PlanFor, if set, overrides Plan per datagram (e.g. no faults for sentinels).
-	PlanFor func(d *Datagram) *FaultPlan
+	// PlanFor, if set, overrides Plan per datagram and socket (the socket performing
+	// the send or the receive), e.g. timestamp faults on the server's sockets only.
+	PlanFor func(d *Datagram, at *UDPConn) *FaultPlan
 	// OnSend observes every datagram at the moment it is sent (wire monitor).
 	OnSend func(d *Datagram)
 	// Intercept, if set, may replace the default routing of a datagram
@@ -95,6 +96,10 @@ type Net struct {
 	Intercept func(d *Datagram) (routes []Route, handled bool)
 	// OnDeliver observes every datagram when it is put into a socket queue.
 	OnDeliver func(d *Datagram)
+	// OnClose observes sockets being closed (with their last consumed datagram).
+	OnClose func(c *UDPConn)
+	// OnRecv observes every datagram a socket read returns.
+	OnRecv func(c *UDPConn, d *Datagram)
 	// ReusePorts: ephemeral ports may be handed out again after Close.
 	ReusePorts bool
 	freePorts  map[netip.Addr][]uint16
@@ -180,6 +185,7 @@ type UDPConn struct {
 
 	LastRecv *Datagram // datagram returned by the last successful read
 	Reads    int
+	LateTx   int // kernel transmit timestamps that became readable only after the poll timeout
 }
 
 func (c *UDPConn) Name() string          { return c.name }
@@ -205,7 +211,7 @@ func (lc *ListenConfig) ListenPacket(ctx context.Context, network, address strin
 	if err != nil {
 		return nil, fmt.Errorf("simnet: listen %q: %w", address, err)
 	}
-	return n.listen(ap, lc.Control, network, address)
+	return n.listen(ap, lc.Control, network, address, true)
 }
 
 // ListenUDP stands in for net.ListenUDP.
@@ -218,7 +224,7 @@ func ListenUDP(network string, laddr *net.UDPAddr) (*UDPConn, error) {
 	if !ok {
 		return nil, errors.New("simnet: bad local address")
 	}
-	return n.listen(netip.AddrPortFrom(ip.Unmap(), uint16(laddr.Port)), nil, network, laddr.String())
+	return n.listen(netip.AddrPortFrom(ip.Unmap(), uint16(laddr.Port)), nil, network, laddr.String(), true)
 }
 
 // Listen binds a socket; used by worlds directly as well.
@@ -233,11 +239,11 @@ func (n *Net) Listen(address string, reuse bool) (*UDPConn, error) {
 			return c.Control(func(fd uintptr) { SetsockoptInt(int(fd), unix.SOL_SOCKET, unix.SO_REUSEPORT, 1) })
 		}
 	}
-	return n.listen(ap, ctl, "udp", address)
+	return n.listen(ap, ctl, "udp", address, false)
 }
 
 func (n *Net) listen(ap netip.AddrPort, control func(network, address string, c syscall.RawConn) error,
-	network, address string) (*UDPConn, error) {
+	network, address string, park bool) (*UDPConn, error) {
 	ap = netip.AddrPortFrom(ap.Addr().Unmap(), ap.Port())
 	h := n.hosts[ap.Addr()]
 	if h == nil {
@@ -250,9 +256,11 @@ func (n *Net) listen(ap netip.AddrPort, control func(network, address string, c 
 	n.lcount[key]++
 	id := key + ":" + strconv.Itoa(n.lcount[key])
 	n.mu.Unlock()
-	res := n.R.Park(&simcore.Op{ID: id, Node: h.Node, NoDelay: true, Ready: func() bool { return true }})
-	if res.Killed {
-		return nil, errKilled
+	if park { // sockets opened by the code under test; worlds bind theirs from the root goroutine
+		res := n.R.Park(&simcore.Op{ID: id, Node: h.Node, NoDelay: true, Ready: func() bool { return true }})
+		if res.Killed {
+			runtimeGoexit() // node down or world over: the calling goroutine unwinds (deferred calls run)
+		}
 	}
 	n.mu.Lock()
 	defer n.mu.Unlock()
@@ -298,7 +306,6 @@ func (n *Net) listen(ap netip.AddrPort, control func(network, address string, c 
 	return c, nil
 }
 
-var errKilled = errors.New("simnet: node down")
 var errClosed = net.ErrClosed
 
 type timeoutError struct{}
@@ -326,6 +333,9 @@ func (c *UDPConn) SetReadBuffer(int) error            { return nil }
 
 func (c *UDPConn) Close() error {
 	n := c.net
+	if n.OnClose != nil && !c.closed {
+		n.OnClose(c)
+	}
 	n.mu.Lock()
 	defer n.mu.Unlock()
 	if c.closed {
@@ -388,7 +398,7 @@ func (c *UDPConn) send(b []byte, dst netip.AddrPort) (int, error) {
 	n.mu.Unlock()
 	res := n.R.Park(&simcore.Op{ID: id, Node: c.host.Node, Ready: func() bool { return true }})
 	if res.Killed {
-		return 0, errKilled
+		runtimeGoexit()
 	}
 	n.mu.Lock()
 	if c.closed {
@@ -398,9 +408,12 @@ func (c *UDPConn) send(b []byte, dst netip.AddrPort) (int, error) {
 	dst = netip.AddrPortFrom(dst.Addr().Unmap(), dst.Port())
 	now := time.Now()
 	n.nextID++
+	// the packet leaves the host (and gets its kernel transmit timestamp) a little
+	// after the send call: strictly later than any clock reading taken before it
+	leave := now.Add(time.Duration(1 + n.R.Tape.Range(0, 1999, "txleave")))
 	d := &Datagram{
 		ID: n.nextID, Src: c.local, Dst: dst, Payload: append([]byte(nil), b...),
-		SentAt: now, SrcConn: c, TxStamp: c.host.Clock.At(now),
+		SentAt: leave, SrcConn: c, TxStamp: c.host.Clock.At(leave),
 	}
 	if c.LastRecv != nil {
 		d.Cause = c.LastRecv.ID
@@ -408,7 +421,7 @@ func (c *UDPConn) send(b []byte, dst netip.AddrPort) (int, error) {
 	plan := &n.Plan
 	if n.PlanFor != nil {
 		n.mu.Unlock()
-		if p := n.PlanFor(d); p != nil {
+		if p := n.PlanFor(d, c); p != nil {
 			plan = p
 		}
 		n.mu.Lock()
@@ -429,6 +442,7 @@ func (c *UDPConn) send(b []byte, dst netip.AddrPort) (int, error) {
 			n.R.Fault("tx-stamp-missing")
 		case plan.TxStampLate > 0 && t.Bool(plan.TxStampLate, 1000, "f.txlate"):
 			n.R.Fault("tx-stamp-late")
+			c.LateTx++
 			c.erq = append(c.erq, errqEntry{stamp: d.TxStamp, id: txid, availAt: now.Add(2 * time.Millisecond)})
 		default:
 			c.erq = append(c.erq, errqEntry{stamp: d.TxStamp, id: txid, availAt: now})
@@ -516,10 +530,14 @@ func (n *Net) NewDatagram(src, dst netip.AddrPort, payload []byte, note string) 
 	return &Datagram{ID: n.nextID, Src: src, Dst: dst, Payload: payload, SentAt: time.Now(), Note: note}
 }
 
-// Inject puts d on the wire: it arrives after delay at whatever socket is bound
-// to d.Dst at that instant.
+// Inject puts d on the wire: it arrives delay after it left the sender at whatever
+// socket is bound to d.Dst at that instant.
 func (n *Net) Inject(d *Datagram, delay time.Duration) {
-	n.R.After(delay, func() { n.deliver(d) })
+	at := d.SentAt.Add(delay)
+	if now := time.Now(); at.Before(now) {
+		at = now
+	}
+	n.R.At(at, func() { n.deliver(d) })
 }
 
 func (n *Net) deliver(d *Datagram) {
@@ -574,7 +592,7 @@ func (c *UDPConn) recv() (*Datagram, error) {
 		return len(c.rxq) > 0 || c.closed
 	}})
 	if res.Killed {
-		return nil, errKilled
+		runtimeGoexit()
 	}
 	n.mu.Lock()
 	defer n.mu.Unlock()
@@ -600,7 +618,7 @@ func (c *UDPConn) ReadMsgUDPAddrPort(b, oob []byte) (n, oobn, flags int, addr ne
 	net_ := c.net
 	plan := &net_.Plan
 	if net_.PlanFor != nil {
-		if p := net_.PlanFor(d); p != nil {
+		if p := net_.PlanFor(d, c); p != nil {
 			plan = p
 		}
 	}
@@ -636,6 +654,9 @@ func (c *UDPConn) ReadMsgUDPAddrPort(b, oob []byte) (n, oobn, flags int, addr ne
 	c.Reads++
 	net_.mu.Unlock()
 	net_.R.Log("recv %s id=%d n=%d", c.name, d.ID, n)
+	if net_.OnRecv != nil {
+		net_.OnRecv(c, d)
+	}
 	return n, oobn, flags, d.Src, nil
 }
 
